@@ -267,20 +267,22 @@ def check(ctx):
                 ctx.undecidable("C03.5", f, f"covariance construction not "
                                 f"recognised: {fmt(cov)}")
             else:
-                # a product with at least one centred factor is stable: the
-                # offset of the other factor is multiplied by values that
-                # sum to zero
+                # every data factor must be centred: with only one centred
+                # factor the other's common offset is multiplied by residuals
+                # that sum to zero only up to the round-off of the mean
+                # (~ eps * offset), an error of eps * offset^2 in the
+                # covariance — 1e-5 rad of rotation for UTM-sized offsets
                 raw = [(t_, o) for t_, ops_ in prods for o in ops_
-                       if not any(centred(z) for z in ops_)]
+                       if not centred(o)]
                 ok = not raw
                 ctx.ob("C03.5", f, ok,
                        "the covariance is accumulated from *centred* points "
                        "(y_i - mean_y)(x_i - mean_x)^T" if ok else
                        f"the covariance multiplies uncentred data "
-                       f"({fmt(raw[0][1])[:60]}) and subtracts the product "
-                       f"of the means afterwards: for point sets with a "
-                       f"large common offset (UTM-like coordinates) this "
-                       f"cancels catastrophically and the rotation is wrong",
+                       f"({fmt(raw[0][1])[:60]}): for point sets with a "
+                       f"large common offset (UTM-like coordinates) the "
+                       f"offset is cancelled only up to round-off "
+                       f"(eps * offset^2) and the rotation is wrong",
                        key="C03.5:centred-covariance", cov=fmt(cov))
 
         # --------------------------------------------------------- C03.4
@@ -345,8 +347,9 @@ def _sign_fix_value(ctx, f, ws, ret, fixes):
         return
     fx = fixes[0]
     alts = [a for a in (fx.args[1], fx.args[2]) if a.op == "upd"]
-    if len(alts) != 1 or not is_call_to(alts[0].args[0], "numpy.eye",
-                                        "numpy.identity"):
+    diag = len(alts) == 1 and is_call_to(alts[0].args[0], "numpy.ones")
+    if len(alts) != 1 or not (is_call_to(alts[0].args[0], "numpy.eye",
+                                         "numpy.identity") or diag):
         ctx.undecidable("C03.7", f, f"[with_scale={ws}] form of the "
                         f"reflection correction not recognised: "
                         f"{fmt(fx)[:120]}")
@@ -362,8 +365,13 @@ def _sign_fix_value(ctx, f, ws, ret, fixes):
                 and tm.is_const(i.args[2]):
             return i.args[2].args[1] == 1
         return None
+    if diag and m_term is not None and m_term.op == "sub" and \
+            m_term.args[0].op == "attr" and m_term.args[0].args[1] == "shape":
+        pass        # np.ones(u.shape[0]): m taken from a matrix' shape
+    # S as a matrix (entry [m-1, m-1]) or as its diagonal (entry [m-1])
     pos = [last(i) for i in idx.args] if idx.op == "tuple" and \
-        len(idx.args) == 2 else [None]
+        len(idx.args) == 2 and not diag else (
+            [last(idx)] if diag and idx.op != "tuple" else [None])
     if None in pos or not tm.is_const(val):
         ctx.undecidable("C03.7", f, f"[with_scale={ws}] sign-matrix entry "
                         f"not recognised: {fmt(alts[0])[:120]}")
@@ -390,11 +398,47 @@ def _sign_fix_value(ctx, f, ws, ret, fixes):
            key="C03.7:sign-matrix")
 
 
+def _uniform_weights(t: T) -> T:
+    """the unweighted case of a weighted formulation, written with the
+    uniform weight vector w = np.full(n, 1/n):  X.dot(w) is X.mean(axis=1)
+    and w * A is (1/n) * A — the spellings the typing knows"""
+    def full(z: T):
+        if is_call_to(z, "numpy.full") and len(z.args[1]) == 2:
+            n, c = z.args[1]
+            if c.op == "binop" and c.args[0] == "Div" and \
+                    tm.is_const(c.args[1]) and \
+                    tm.const_val(c.args[1]) == 1 and c.args[2] is n:
+                return c
+        return None
+
+    def rw(z: T):
+        ops = None
+        if z.op == "call" and tm.callee_name(z) == ".dot" and \
+                len(z.args[1]) == 1:
+            ops = (tm.method_recv(z), z.args[1][0])
+        elif is_call_to(z, "numpy.dot", "numpy.matmul") and \
+                len(z.args[1]) == 2:
+            ops = tuple(z.args[1])
+        elif z.op == "binop" and z.args[0] == "MatMult":
+            ops = (z.args[1], z.args[2])
+        if ops and ops[0] is not None and full(ops[1]) is not None:
+            return tm.call(tm.attr(ops[0], "mean"), (),
+                           (("axis", const(1)),))
+        if z.op == "binop" and z.args[0] == "Mult":
+            for a, b in ((z.args[1], z.args[2]), (z.args[2], z.args[1])):
+                c = full(a)
+                if c is not None:
+                    return T("binop", "Mult", c, b)
+        return None
+    return t.map(rw)
+
+
 def _equivariance(ctx, f, ws, ret, x, y):
     """C03.6: typed equivariance of (r, t, c) under moving, scaling,
     replicating / permuting the points, and no mixing of the two spaces"""
     an = Analyzer(x, y, joint_scale=not ws)
     tag = f"[with_scale={ws}]"
+    ret = _uniform_weights(ret)
     try:
         vr, vt, vc = (an.ev(a) for a in ret.args)
     except Unknown as e:
@@ -510,7 +554,8 @@ VARIANTS = [
          expect="fire", rule="C03.6"),
     dict(name="eqv-one-sided-centring", file="evo/core/geometry.py",
          find="np.outer((y[:, i] - mean_y), (x[:, i] - mean_x))",
-         replace="np.outer(y[:, i] - mean_y, x[:, i])", expect="silent"),
+         replace="np.outer(y[:, i] - mean_y, x[:, i])", expect="fire",
+         rule="C03.5"),
     dict(name="sign-matrix-first-entry", file="evo/core/geometry.py",
          find="s[m - 1, m - 1] = -1", replace="s[0, 0] = -1", expect="fire",
          rule="C03.7"),
